@@ -408,12 +408,15 @@ def run(report):
         for vocab in ('ns-cp', 'cp-link', 'node-comp'):
             for n in (1, 2, 3, 4):
                 cases += list(all_graphs(vocab, n))
-        for n in (3, 4):
-            cases += list(all_graphs('node-ns-cp', n))
-        cases += list(all_graphs('cp-link', 5, max_edges=5))
+        cases += list(all_graphs('node-ns-cp', 3))
+        cases += list(all_graphs('node-ns-cp', 4, sorted_classes=True))
+        # n = 5: class assignments up to renaming of node ids, at most 3 edges (the full n=5 space is ~400k graphs x ~300
+        # queries: hours, and was never completed)
+        cases += list(all_graphs('cp-link', 5, max_edges=3, sorted_classes=True))
         for n in (2, 3):
             cases += list(all_graphs('link-clink', n))
-        space = 'all graphs n<=4 over all four vocabularies; n=5 (cp-link) restricted to <=5 edges'
+        space = ('all graphs n<=4 over the two-class vocabularies, n<=3 (all) and n=4 (class assignments up to renaming) over the '
+                 'three-class vocabulary; n=5 (cp-link): class assignments up to renaming, <=3 edges; n<=3 over the substring-named pair')
     g = explore_cases(report, 'graphs', eval_graph, cases, chunk=16,
                       rule='typed graphs (class per node, relation per node pair) x every query argument tuple on both '
                            'store flavours next to two decoy graphs with the same NodeIDs; non-trivial = at least one edge',
